@@ -363,13 +363,18 @@ def obligation(n, fn, loops, hyps):
 
 # ---------------------------------------------------------------------------------------------------------------
 # call sites: the arrays arm_model.py / sp_model.py hand to the kernels have the documented shapes
-CALLSITE_FILES = ['basic_robotics/kinematics/arm_model.py', 'basic_robotics/kinematics/sp_model.py']
+CALLSITE_FILES = ['basic_robotics/kinematics/arm_model.py', 'basic_robotics/kinematics/sp_model.py',
+                  'basic_robotics/general/faser_transform.py', 'basic_robotics/general/basic_helpers.py']
+KERNEL_MODULE_NAMES = ('fmr', 'mr')
+# kernels that only slice their vector arguments by rows and therefore take a (k, 1) column as well as a flat k-vector
+COLUMN_OK = ('LocalToGlobal', 'GlobalToLocal')
 # documented shapes of the state the callers slice (checked on real objects by the harness); n = number of joints
 SITE_SHAPES = {
     'self.screw_list': (6, 'n'), 'self.screw_list_body': (6, 'n'), 'theta': ('n',), 'theta_init': ('n',), 'theta_temp': ('n',),
     'self.joint_mins': ('n',), 'self.joint_maxs': ('n',),
     'self._bottom_joints_local': (3, 6), 'self._top_joints_local': (3, 6), 'self._bottom_joints_space': (3, 6), 'self._top_joints_space': (3, 6),
     'self._bottom_joints_init': (6, 3), 'self._top_joints_init': (6, 3), 'L': (6,), 'attempt': (6,),
+    'self.TAA': (6, 1), 'self.TM': (4, 4), 'taa_format': (6,),
 }
 # integer parameters of the calling methods and their documented range
 SITE_INDEX = {'i': ('0 ≤ i', 'i < n')}
@@ -399,6 +404,22 @@ def site_shape(e):
         return ('4', '4')
     if isinstance(e, ast.Call) and isinstance(e.func, ast.Attribute) and e.func.attr == 'copy':
         return site_shape(e.func.value)
+    if isinstance(e, ast.Call) and isinstance(e.func, ast.Attribute) and e.func.attr == 'gTAA':
+        return ('6', '1')
+    if isinstance(e, ast.Call) and isinstance(e.func, ast.Attribute) and e.func.attr == 'flatten':
+        sh = site_shape(e.func.value)
+        if sh is not None and len(sh) == 2 and sh[1] == '1':
+            return (sh[0],)
+        if sh is not None and len(sh) == 1:
+            return sh
+        return None
+    if isinstance(e, ast.Call) and isinstance(e.func, ast.Name) and e.func.id in ARG_SHAPES and e.func.id in RET_SHAPES:
+        r = RET_SHAPES[e.func.id]
+        return tuple(str(d) for d in r) if isinstance(r, tuple) and r[:1] != ('tuple',) else None
+    if isinstance(e, ast.Call) and isinstance(e.func, ast.Attribute) and isinstance(e.func.value, ast.Name) \
+            and e.func.value.id in KERNEL_MODULE_NAMES and e.func.attr in RET_SHAPES:
+        r = RET_SHAPES[e.func.attr]
+        return tuple(str(d) for d in r) if isinstance(r, tuple) and r[:1] != ('tuple',) else None
     if isinstance(e, ast.Subscript):
         base = site_shape(e.value)
         if base is None:
@@ -433,7 +454,7 @@ def callsites():
         for fn in [n for n in ast.walk(tree) if isinstance(n, ast.FunctionDef)]:
             for call in [n for n in ast.walk(fn) if isinstance(n, ast.Call)]:
                 f = call.func
-                if not (isinstance(f, ast.Attribute) and isinstance(f.value, ast.Name) and f.value.id == 'fmr' and f.attr in ARG_SHAPES):
+                if not (isinstance(f, ast.Attribute) and isinstance(f.value, ast.Name) and f.value.id in KERNEL_MODULE_NAMES and f.attr in ARG_SHAPES):
                     continue
                 doc = ARG_SHAPES[f.attr]
                 params = KERNEL_PARAMS.get(f.attr, [])
@@ -448,6 +469,8 @@ def callsites():
                     if sh is None:
                         unresolved.append('%s:%d %s(%s=%s)' % (os.path.basename(rel), call.lineno, f.attr, pname, ast.unparse(arg)[:40]))
                         continue
+                    if len(sh) == 2 and sh[1] == '1' and len(doc[pname]) == 1 and f.attr in COLUMN_OK:
+                        sh = (sh[0],)      # a column is accepted where a flat vector is documented (row slices behave alike)
                     if len(sh) != len(doc[pname]):
                         raise TranslationError('%s line %d: %s is passed an array of %d axes for %s' % (rel, call.lineno, f.attr, len(sh), pname))
                     for k, (d, want) in enumerate(zip(sh, doc[pname])):
